@@ -161,6 +161,9 @@ pub struct Vt<I: 'static> {
     /// Display of the FromStr error (None when from_str succeeded)
     pub from_str_err_text: Option<fn(&str) -> Option<String>>,
     pub default: Option<fn() -> I>,
+    /// generic declarations: `Default` through several instantiations in sequence:
+    /// (instantiation, constructor accepts its default, None = panicked | Some(equals constructor result))
+    pub default_history: Option<fn() -> Vec<(String, bool, Option<bool>)>>,
 
     pub de: Option<fn(Fmt, Pos, &[u8]) -> Result<Vec<I>, String>>,
     pub de_key: Option<fn(Fmt, &[u8]) -> Result<Vec<I>, String>>,
@@ -225,6 +228,7 @@ impl<I: 'static> Vt<I> {
             from_str: None,
             from_str_err_text: None,
             default: None,
+            default_history: None,
             de: None,
             de_key: None,
             de_ref: None,
